@@ -19,6 +19,9 @@ Values are ints or (nested) lists of ints. Node kinds:
           input; mode "drop" (false branch emits nothing) | "zero" (false branch emits the zeroed value)
   exec    schedule/transfer/execute job pipeline from /repo/tests/utils/workflow.py (RecoveryTranslator), output =
           lin(inputs) + k, ints only
+  loop    a loop sub-network built with RecoveryTranslator.get_input_loop / get_output_loop (real LoopCombinatorStep,
+          BaseLoopConditionalStep, LoopTerminationCombinator, BaseLoopOutputLastStep, ForwardTransformers) around a
+          `+ k` body: ins = [counter, limit], out = the last counter value (counter < limit initially)
 A node may carry "fail": {"tag": t} (tf only): the transformation raises on that tag (the step ends FAILED).
 
 `run_spec` returns, per run: the executor outcome, per-port {tag: value} maps read from `port.token_list`, the
@@ -67,6 +70,9 @@ def apply_fn(fn: str, k: int, vals: list) -> list:
         return [[vals[0], vals[1]]]
     if fn == "split":
         return [deep_map(vals[0], lambda x: x + 1), deep_sum(vals[0])]
+    if fn == "loop":
+        c, l = deep_sum(vals[0]), deep_sum(vals[1])
+        return [c + k * (-((c - l) // k)) if c < l and k > 0 else c]
     raise ValueError(fn)
 
 
@@ -93,7 +99,7 @@ def py_den(spec) -> dict[int, dict[str, Any]]:
     for n in spec["nodes"]:
         ins = [ports[p] for p in n["ins"]]
         kind = n["kind"]
-        if kind in ("tf", "cond", "exec"):
+        if kind in ("tf", "cond", "exec", "loop"):
             keys = set(ins[0])
             if any(set(i) != keys for i in ins[1:]):
                 raise IllFormed(f"node {n['id']}: input ports carry different tag sets")
@@ -109,6 +115,10 @@ def py_den(spec) -> dict[int, dict[str, Any]]:
                     if not all(isinstance(v, int) for v in vals):
                         raise IllFormed("exec on a list value")
                     ports[n["outs"][0]][tag] = apply_fn("lin", n.get("k", 0), vals)[0]
+                elif kind == "loop":
+                    if not all(isinstance(v, int) for v in vals) or not vals[0] < vals[1] or n["k"] < 1:
+                        raise IllFormed("loop needs ints, k >= 1 and at least one iteration")
+                    ports[n["outs"][0]][tag] = apply_fn("loop", n["k"], vals)[0]
                 else:
                     if pred_holds(n["m"], n["r"], vals[0]):
                         for o, v in zip(n["outs"], vals):
@@ -174,7 +184,7 @@ def py_den(spec) -> dict[int, dict[str, Any]]:
 # --------------------------------------------------------------------------------------------------
 # generator
 # --------------------------------------------------------------------------------------------------
-DEFAULT_FEATURES = {"tf": 5, "scatter": 3, "gather": 4, "dot": 2, "cart": 1, "cond": 2, "exec": 0}
+DEFAULT_FEATURES = {"tf": 5, "scatter": 3, "gather": 4, "dot": 2, "cart": 1, "cond": 2, "exec": 0, "loop": 0}
 
 
 def _type_list(t):
@@ -341,6 +351,14 @@ def _gen_once(rng, size, feat):
             shape = p["shape"] if mode == "zero" else p["shape"][:-1] + (new_level(levels.get(p["shape"][-1])),)
             m = rng.randint(2, 3)
             add("cond", ins, [new_port(ports[i]["type"], shape) for i in ins], m=m, r=rng.randrange(m), mode=mode)
+        elif kind == "loop":
+            ins = pick(lambda p: p["type"] == "I")
+            if ins is None:
+                continue
+            p = ports[ins[0]]
+            lim = new_port("I", p["shape"])
+            add("tf", ins, [lim], fn="add", k=rng.randint(1, 5))        # limit = counter + m: at least one iteration
+            add("loop", [ins[0], lim], [new_port("I", p["shape"])], k=rng.randint(1, 3))
         elif kind == "exec":
             motif = rng.random()
             if motif < 0.35:
@@ -377,14 +395,27 @@ def _gen_once(rng, size, feat):
     return spec
 
 
-def choose_failure(rng: random.Random, spec: dict, escape_prob: float = 0.3) -> dict | None:
+def _upstream_of_loops(spec: dict) -> set[int]:
+    """ids of the nodes from which some loop node is reachable"""
+    tainted_ports: set[int] = set()
+    out: set[int] = set()
+    for n in reversed(spec["nodes"]):
+        if n["kind"] == "loop" or any(p in tainted_ports for p in n["outs"]):
+            if n["kind"] != "loop":
+                out.add(n["id"])
+            tainted_ports.update(n["ins"])
+    return out
+
+
+def choose_failure(rng: random.Random, spec: dict, escape_prob: float = 0.3, loop_upstream_prob: float = 0.12) -> dict | None:
     """copy of the spec with one injected failure:
     * a transformer raises on one of the tags it processes (`Transformer.run` catches it: the step ends FAILED and the
       failure travels as TerminationToken(FAILED)), or
     * (mode "escape") a scatter step is fed a non-list value through an inserted `sum` transformer: `ScatterStep.run`
       does not catch the WorkflowDefinitionException, which reaches `StreamFlowExecutor._handle_exception` -> close()."""
     den = py_den(spec)
-    scatters = [n["id"] for n in spec["nodes"] if n["kind"] == "scatter" and den[n["ins"][0]]]
+    scatters = [n["id"] for n in spec["nodes"] if n["kind"] == "scatter" and den[n["ins"][0]]
+                and n["id"] not in _upstream_of_loops(spec)]
     if scatters and rng.random() < escape_prob:
         sid = rng.choice(scatters)
         spec = json.loads(json.dumps(spec))
@@ -398,6 +429,12 @@ def choose_failure(rng: random.Random, spec: dict, escape_prob: float = 0.3) -> 
             n["id"] = i
         return spec
     cands = [(n["id"], tag) for n in spec["nodes"] if n["kind"] == "tf" for tag in den[n["ins"][0]]]
+    # a failure upstream of a loop input dead-locks the LoopCombinatorStep (known finding of C04, every occurrence costs
+    # the whole watchdog time): keep such failure points rare
+    feeds_loop = _upstream_of_loops(spec)
+    rare = [c for c in cands if c[0] in feeds_loop]
+    common = [c for c in cands if c[0] not in feeds_loop]
+    cands = rare if (rare and (not common or rng.random() < loop_upstream_prob)) else common
     if not cands:
         return None
     nid, tag = rng.choice(cands)
@@ -463,6 +500,22 @@ async def build(context, spec: dict, workdir: str):
                 step.add_input_port(f"x{j}", ports[p])
             for j, p in enumerate(n["outs"]):
                 step.add_output_port(f"x{j}", ports[p])
+        elif kind == "loop":
+            from tests.utils.workflow import RecoveryTranslator
+            before = set(workflow.steps)
+            ltr = RecoveryTranslator(workflow)
+            loop_in = ltr.get_input_loop(name, {"counter": ports[n["ins"][0]], "limit": ports[n["ins"][1]]},
+                                         'lambda x: x["counter"].value < x["limit"].value')
+            body = workflow.create_step(cls=GenTransformer, name=name + "/body", fn="add", k=n["k"], nin=1)
+            body.add_input_port("i0", loop_in["counter"])
+            body_out = workflow.create_port()
+            body.add_output_port("o0", body_out)
+            louts = ltr.get_output_loop(name, {"counter": body_out, "limit": loop_in["limit"]}, {"counter"})
+            fw = workflow.create_step(cls=GenTransformer, name=name + "/out", fn="add", k=0, nin=1)
+            fw.add_input_port("i0", louts["counter"])
+            fw.add_output_port("o0", ports[n["outs"][0]])
+            node_steps[n["id"]] = sorted(set(workflow.steps) - before)
+            continue
         elif kind == "exec":
             if translator is None:
                 translator = await _exec_translator(context, workflow, workdir)
@@ -569,7 +622,7 @@ def run_spec(spec: dict, seed: int, workdir: str, timeout: float = 60.0, shuffle
                     return await executor.run()
                 finally:
                     # the very moment run() returns / raises: which steps are not terminated
-                    result["unterminated_at_exit"] = sorted(n for n, st in workflow.steps.items() if not st.terminated)
+                    result.setdefault("unterminated_at_exit", sorted(n for n, st in workflow.steps.items() if not st.terminated))
 
             run_task = asyncio.create_task(runner())
             done, _ = await asyncio.wait({run_task}, timeout=timeout)
@@ -585,6 +638,15 @@ def run_spec(spec: dict, seed: int, workdir: str, timeout: float = 60.0, shuffle
                 ret = run_task.result()
                 result["outcome"] = {"kind": "return", "keys": sorted(ret), "ret": {k: _jsonable(v) for k, v in ret.items()}}
             result["executor"] = dict(rec, closed=bool(executor._closed))
+            # state of the loop combinator steps (classification of the known loop hang)
+            from streamflow.workflow.step import LoopCombinatorStep
+            result["loop_combinators"] = {
+                name: {"terminated": bool(st.terminated),
+                       "checklist": {k: sorted(v) for k, v in st.iteration_termination_checklist.items()},
+                       "inputs": {pn: {"terminations": [Status(t.value).name for t in port.token_list if isinstance(t, TerminationToken)],
+                                       "ndata": sum(1 for t in port.token_list if not isinstance(t, (TerminationToken, IterationTerminationToken)))}
+                                  for pn, port in st.get_input_ports().items()}}
+                for name, st in workflow.steps.items() if isinstance(st, LoopCombinatorStep)}
 
             # let finishing tasks settle (the last `_set_status` of a step is a database await served by a thread)
             def workflow_tasks():
